@@ -46,10 +46,10 @@ Qed.
 Lemma filter_len_le {A} (f : A -> bool) l : length (filter f l) <= length l.
 Proof. induction l as [|h t IH]; cbn; auto. destruct (f h); cbn; lia. Qed.
 
-Lemma parked_length (l : list wstate) :
-  length (flat_map (fun w => match parked_call w with Some p => [p] | None => [] end) l) <= length l.
+Lemma parked_length c (l : list wstate) :
+  length (flat_map (fun w => match parked_call c w with Some p => [p] | None => [] end) l) <= length l.
 Proof.
-  induction l as [|w t IH]; cbn; auto. destruct (parked_call w); cbn; lia.
+  induction l as [|w t IH]; cbn [flat_map]; auto. destruct (parked_call c w); cbn; lia.
 Qed.
 
 (* ------------------------------------------------------------ the invariant *)
@@ -451,7 +451,7 @@ Qed.
 (* ------------------------------------------------------------ consequences, for every schedule *)
 
 (* C08: never more than `workers` exec calls (nor tasks) in flight *)
-Lemma inflight_bound s : BInv s -> length (parked s) <= nworkers /\ count_run (ws s) <= nworkers.
+Lemma inflight_bound s : BInv s -> length (parked c s) <= nworkers /\ count_run (ws s) <= nworkers.
 Proof.
   intros I. split.
   - unfold parked. rewrite <- (I_ws _ I). apply parked_length.
